@@ -329,6 +329,12 @@ func (w *Worker) callSSA(caller *frame, fn *ssa.Function, args []Value, env []Va
 	if w.depth > 2000 {
 		panic(pathEnd{endBudget, "call depth > 2000 in " + fn.String()})
 	}
+	if fn.Pkg != nil && !w.built[fn.Pkg] {
+		// never look at a function body before its package is completely built (another worker may be
+		// in the middle of building it)
+		w.E.buildPkg(fn.Pkg)
+		w.built[fn.Pkg] = true
+	}
 	name := fn.String()
 	if fn.Parent() == nil {
 		if fn.Name() == "init" && fn.Pkg != nil && fn.Synthetic != "" && fn == fn.Pkg.Func("init") && caller != nil && caller.fn.Pkg != fn.Pkg {
